@@ -11,4 +11,6 @@ for id in $(cat /verif/BUILT); do
   case "$id" in C11|C17|C18) race="-race";; esac
   go1.26.8 build -tags verif $race -o /dev/null ./$p || echo "setup: warm-up build of $p failed (the check will report it)"
 done
+# the 32-bit side run of the arithmetic/encoding checks: warm the GOARCH=386 standard library
+GOARCH=386 go1.26.8 build -tags verif -o /dev/null ./c19 || echo "setup: 386 warm-up build failed (the side run will report it)"
 exit 0
